@@ -729,10 +729,15 @@ pub fn is_plain_label(name: &str) -> bool {
     let Some(first) = chars.next() else {
         return false;
     };
-    if !(first.is_ascii_alphabetic() || first == '_') {
+    // "non-prefixed numerical literals are considered identifiers": `10`, `7`, `007`, `7up` are labels;
+    // `0x..` is a hex literal
+    if !(first.is_ascii_alphanumeric() || first == '_') {
         return false;
     }
     if !name.chars().all(|c| c.is_ascii_alphanumeric() || c == '_') {
+        return false;
+    }
+    if lower.starts_with("0x") {
         return false;
     }
     // register spellings and anything the lexer could read as a hex literal
@@ -756,7 +761,7 @@ const LABEL_PARTS: &[&str] = &[
     "nop", "NOP", "Nop", "mov", "xor", "or", "mul", "div", "cmp", "inc", "dec", "neg", "clr", "load", "store", "print", "db", "dw",
     "dup", "proc", "endp", "_start", "_main", "exit", "syscall", "int", "iret", "jz", "jnz", "bra", "beq",
     // labels to the assembler, numbers or registers to a grammar that knows b/o prefixes and r0-r7
-    "b1", "b10", "B0", "o7", "o17", "b_1", "o_7", "b2", "r10", "R07x", "r8", "R77", "100", "7", "007", "12294",
+    "b1", "b10", "B0", "o7", "o17", "b_1", "o_7", "b2", "r10", "R07x", "r8", "R77", "100", "7", "007", "12294", "10", "2", "0", "1", "20", "255", "256", "7up", "0b1", "00",
 ];
 
 pub fn gen_label(rng: &mut Rng, taken: &[String]) -> String {
